@@ -89,6 +89,11 @@ fn main() {
     bin!(_mm_cmpgt_ps, sse::mm_cmpgt_ps, exact);
     bin!(_mm_cmpge_ps, sse::mm_cmpge_ps, exact);
     bin!(_mm_cmpunord_ps, sse::mm_cmpunord_ps, exact);
+    bin!(_mm_cmpord_ps, sse::mm_cmpord_ps, exact);
+    bin!(_mm_cmpnlt_ps, sse::mm_cmpnlt_ps, exact);
+    bin!(_mm_cmpnle_ps, sse::mm_cmpnle_ps, exact);
+    bin!(_mm_cmpngt_ps, sse::mm_cmpngt_ps, exact);
+    bin!(_mm_cmpnge_ps, sse::mm_cmpnge_ps, exact);
     for (a, b) in pairs.iter() {
         n += 4;
         let (r, m) = (unsafe { _mm_movemask_ps(mk(*a)) }, sse::mm_movemask_ps(mk(*a)));
